@@ -115,10 +115,10 @@ fn rand_cfg(rng: &mut crate::ts::Rng) -> Value {
     while (positions.len() as u64) < nk { let p = rng.below(9) as i64; if !positions.contains(&p) { positions.push(p); } }
     let kfs: Vec<Value> = positions.iter().map(|&p| {
         let d: Vec<Value> = (0..4).map(|i| if rng.below(5) < 2 { json!([]) } else { json!([(rng.below(121) as i64 - 20) * if i < 2 { 1 } else { 2 }]) }).collect();
-        let e = if rng.below(4) == 0 { [1i64, 2, 3, 4, 5, 11, 14, 19, 23, 27, 30, 33, 36, 37, 38][rng.below(15) as usize] } else { 0 };
+        let e = if rng.below(4) == 0 { if rng.below(2) == 0 { 10 + rng.below(29) as i64 } else { 1 + rng.below(5) as i64 } } else { 0 };
         json!({"pos": p, "d": d, "e": e})
     }).collect();
-    let de = [1i64, 1, 2, 3, 12, 16, 22, 25, 38][rng.below(9) as usize];
+    let de = if rng.below(3) == 0 { 10 + rng.below(29) as i64 } else { [1i64, 1, 2, 3, 4, 5][rng.below(6) as usize] };
     let del = if rng.below(3) == 0 { rng.below(6) as i64 } else { 0 };
     let rep = [-1i64, -1, 0, 1, 2, -2][rng.below(6) as usize];
     json!({"kfs": kfs, "de": de, "tm": {"cyc": 1 + rng.below(16) as i64, "del": del, "rep": rep, "rev": rng.below(3) == 0}})
